@@ -226,3 +226,8 @@ def main(ctx):
     # the issuer signature is selected and checked by the same parse_jwk / verify_decoded_signature as a plain JWT credential: C02's obligations, re-used
     import c02
     guarded(ctx, 'issuer key selection (shared with plain JWT credentials)', 'M', lambda: c02.run(ctx, prog, only=r'^parse_jwk/|^verify_decoded_signature/|^validate_decoded_credential/'))
+    # "passes the same date / structure / status checks": the unit bodies themselves (C02's obligations) and the claims consistency
+    # conversion (C07's), re-used
+    import c07
+    guarded(ctx, 'claims consistency (shared with C07)', 'M', lambda: c07.credential_consistency(Auditor(ctx, prog), prog, {'scenario': 'claims', 'cex': {'only': '[consistency]'}}))
+    guarded(ctx, 'validation units (shared with C02)', 'M', lambda: c02.units(ctx, prog, only=r'^check_status/|^check_revocation_bitmap_status/|^check_structure/'))
